@@ -29,6 +29,7 @@ package main
 
 import (
 	"encoding/binary"
+	stdio "io"
 	"net"
 	"time"
 
@@ -38,7 +39,11 @@ import (
 const (
 	netEndStall = 0 // the peer stays silent, the decoder's read deadline expires
 	netEndClose = 1 // the peer closes the connection
-	netScenLen  = 9
+	// the peer closes, and the connection hands the last delivered bytes to the reader TOGETHER
+	// with io.EOF (n > 0, err == io.EOF in one Read — which the io.Reader contract allows and
+	// TLS, buffered and proxied connections do)
+	netEndCloseWithData = 2
+	netScenLen          = 9
 )
 
 type netScen struct {
@@ -60,6 +65,9 @@ func parseNetScen(b []byte) netScen {
 func (s netScen) endName() string {
 	if s.end == netEndClose {
 		return "peer closes"
+	}
+	if s.end == netEndCloseWithData {
+		return "peer closes; the last fragment is returned by the same Read as io.EOF"
 	}
 	return "peer silent until the read deadline expires"
 }
@@ -87,8 +95,62 @@ func fragSizes(seed uint32, total int) []int {
 	return out
 }
 
+// eofConn is a net.Conn whose Read serves the prepared fragments and returns the last one
+// together with io.EOF.
+type eofConn struct {
+	data  []byte
+	frags []int
+}
+
+func (c *eofConn) Read(p []byte) (int, error) {
+	if len(c.data) == 0 {
+		return 0, stdio.EOF
+	}
+	n := len(c.data)
+	if len(c.frags) > 0 {
+		n = c.frags[0]
+	}
+	if n > len(p) {
+		n = len(p)
+	}
+	if n > len(c.data) {
+		n = len(c.data)
+	}
+	copy(p, c.data[:n])
+	c.data = c.data[n:]
+	if len(c.frags) > 0 {
+		if c.frags[0] -= n; c.frags[0] <= 0 {
+			c.frags = c.frags[1:]
+		}
+	}
+	if len(c.data) == 0 {
+		return n, stdio.EOF
+	}
+	return n, nil
+}
+func (c *eofConn) Write(p []byte) (int, error)      { return len(p), nil }
+func (c *eofConn) Close() error                     { return nil }
+func (c *eofConn) LocalAddr() net.Addr              { return &net.TCPAddr{} }
+func (c *eofConn) RemoteAddr() net.Addr             { return &net.TCPAddr{} }
+func (c *eofConn) SetDeadline(time.Time) error      { return nil }
+func (c *eofConn) SetReadDeadline(time.Time) error  { return nil }
+func (c *eofConn) SetWriteDeadline(time.Time) error { return nil }
+
 func netDecode(d *decoder, enc []byte, sc netScen) (m measure) {
 	c0 := selfCPU()
+	if sc.end == netEndCloseWithData {
+		conn := &eofConn{data: append([]byte(nil), enc[:sc.cut]...), frags: fragSizes(sc.frag, sc.cut)}
+		func() {
+			defer func() {
+				if e := recover(); e != nil {
+					m.Panicked = true
+				}
+			}()
+			d.Strict(gio.NewDataInputNet(conn))
+		}()
+		m.CPU = selfCPU() - c0
+		return
+	}
 	rd, wr := net.Pipe()
 	// the decoder's side has a read deadline, as a collector/agent connection has
 	rd.SetReadDeadline(time.Now().Add(time.Hour))
